@@ -13,6 +13,7 @@ import (
 	"net/http"
 	"net/http/httptest"
 	"strconv"
+	"strings"
 	"sync"
 	"sync/atomic"
 	"testing"
@@ -68,6 +69,8 @@ type verifC02Case struct {
 	Reqs  int          `json:"reqs"`
 	Inner bool         `json:"inner"`
 	Ops   []verifC02Op `json:"ops"`
+	// tw, conns: request headers with degenerate values (what the guards' error paths hand to the logging helpers)
+	Hdrs []verifC02ReqHdr `json:"hdrs"`
 	// multi: several requests through ONE chain instance
 	MReqs []verifC02MReq `json:"mreqs"`
 	MOps  []verifC02MOp  `json:"mops"`
@@ -82,6 +85,30 @@ type verifC02MReq struct {
 type verifC02MOp struct {
 	Op string `json:"op"` // start | step (let the handler do one more action) | fire
 	R  int    `json:"r"`
+}
+
+type verifC02ReqHdr struct {
+	N    string `json:"n"`    // header name
+	Kind string `json:"kind"` // sep1 | sep2 | empty | long | nonascii | normal
+}
+
+func verifC02SetHdrs(r *http.Request, hdrs []verifC02ReqHdr) {
+	for _, h := range hdrs {
+		v := "10.1.2.3"
+		switch h.Kind {
+		case "sep1":
+			v = ","
+		case "sep2":
+			v = ", ,"
+		case "empty":
+			v = ""
+		case "long":
+			v = strings.Repeat("10.0.0.1, ", 800)
+		case "nonascii":
+			v = "\u00e9\u4e2d\u6587, \u00ff"
+		}
+		r.Header[h.N] = []string{v}
+	}
 }
 
 type verifC02Op struct {
@@ -387,6 +414,7 @@ func verifC02RunTw(c *verifC02Case) (obs map[string]any, ok bool) {
 	rawFire := fire
 	fire = func() { once.Do(rawFire) }
 	req := httptest.NewRequest(http.MethodPost, "http://localhost/verif", nil).WithContext(parent)
+	verifC02SetHdrs(req, c.Hdrs)
 	req.ContentLength = c.Clen
 	if c.Bypass == "upgrade" {
 		req.Header.Set(headerUpgrade, valueWebsocket)
@@ -538,6 +566,7 @@ func verifC02RunConns(c *verifC02Case) map[string]any {
 				continue
 			}
 			req := httptest.NewRequest(http.MethodGet, "http://localhost/verif", nil)
+			verifC02SetHdrs(req, c.Hdrs)
 			req.Header.Set("X-Verif-Req", strconv.Itoa(op.I))
 			go func() {
 				defer close(q.returned)
